@@ -1,4 +1,7 @@
 import BlochVerif.Sim.Tensor
+import BlochVerif.Eval.Model
+import BlochVerif.Generated.GateMatrices
+import BlochVerif.Generated.Builtins
 /-!
 # C01 — built-in gates act as their defining unitaries on exactly the addressed qubits
 
@@ -99,5 +102,29 @@ theorem gate_on_basis_state (q : ℕ) (m : Mat2 ℂ) (x k : ℕ) :
 example : WF (allocate complexOps (allocate complexOps (State.init complexOps)).1).1 ∧
     (1 : ℕ) < (allocate complexOps (allocate complexOps (State.init complexOps)).1).1.n :=
   ⟨WF_allocate _ (WF_allocate _ WF_init), by simp [allocate_n, State.init]⟩
+
+end BlochVerif.Props.C01
+
+/-! ## the model's gate table is the source's (translator output, regenerated on every run) -/
+namespace BlochVerif.Props.C01
+open BlochVerif BlochVerif.Sim
+
+/-- `Generated/GateMatrices.lean` is rewritten on every run from the seven gate functions of `qasm_simulator.cpp`,
+entry for entry; the matrices every theorem above speaks about are those: a changed entry in the source changes the
+generated table and this stops checking. -/
+theorem model_matrices_are_the_source_matrices {K R : Type} (o : ROps K R) (op : QOp R) :
+    gateMat o op = Generated.gateMatSrc o op := by
+  cases op <;> rfl
+
+/-- `Generated/Builtins.lean` is rewritten on every run from `built_ins.cpp`: the names the evaluator model dispatches
+are exactly the declared built-in gates, each is filed under its own name, returns nothing, takes a qubit first,
+and the signatures are the documented ones. -/
+theorem gate_signatures_are_the_documented_ones :
+    Eval.builtinGates = Generated.builtinGateTable.map (·.1) ∧
+    Generated.builtinGateTable.all (fun r => r.1 == r.2.1 && r.2.2.2 == "Void" && r.2.2.1.head? == some "Qubit") = true ∧
+    Generated.builtinGateTable.map (fun r => (r.1, r.2.2.1)) =
+      [("h", ["Qubit"]), ("x", ["Qubit"]), ("y", ["Qubit"]), ("z", ["Qubit"]),
+       ("rx", ["Qubit", "Float"]), ("ry", ["Qubit", "Float"]), ("rz", ["Qubit", "Float"]), ("cx", ["Qubit", "Qubit"])] := by
+  decide
 
 end BlochVerif.Props.C01
